@@ -278,6 +278,10 @@ pub struct World {
     pub armed: Cell<&'static str>,
     /// a scripted child panic is unwinding right now (the driver expects it)
     pub plain_join: Cell<bool>,
+    /// the output token whose destructor panics (scripted)
+    pub tok_panics: Cell<Option<u32>>,
+    pub panic_outputs: Cell<bool>,
+    pub panic_leaks_ok: Cell<bool>,
     pub scripted_panic: Cell<bool>,
     /// a scripted panic has happened in this history: from then on only C07 is judged (the
     /// question is whether safe code can be handed a value nobody produced), the other
@@ -348,6 +352,9 @@ impl World {
             desc: RefCell::new(String::new()),
             armed: Cell::new(""),
             plain_join: Cell::new(false),
+            tok_panics: Cell::new(None),
+            panic_outputs: Cell::new(false),
+            panic_leaks_ok: Cell::new(true),
             scripted_panic: Cell::new(false),
             panic_mode: Cell::new(false),
         })
@@ -369,7 +376,12 @@ impl World {
     }
 
     pub fn violation(&self, prop: &'static str, rule: &'static str, detail: String) {
-        if self.panic_mode.get() && prop != "C07" {
+        if self.panic_mode.get() && prop != "C07" && !(prop == "C06" && (rule == "double_drop" || !self.panic_leaks_ok.get())) {
+            // (after a child panicked, what is judged is memory safety as safe code sees it: no
+            // value nobody produced, no value dropped twice - and for `join_all`, which has no
+            // path on which a caught panic may lose anything, still every drop count. For
+            // `try_join_all` leaks after a caught panic are tolerated: its error path gives up
+            // what is left in the buffer when a destructor unwinds. Behavioural promises are off.)
             return;
         }
         let mut v = self.viol.borrow_mut();
@@ -1107,7 +1119,11 @@ pub struct Tok {
 
 impl Tok {
     pub fn new(kind: ObjKind, producer: u32, seq: u32) -> Tok {
-        let id = w().new_obj(kind, producer);
+        let wd = w();
+        let id = wd.new_obj(kind, producer);
+        if wd.panic_outputs.get() && wd.tok_panics.get().is_none() && !wd.panic_mode.get() && wd.rng.borrow_mut().chance(1, 6) {
+            wd.tok_panics.set(Some(id));
+        }
         Tok { id, magic: MAGIC, producer, seq, canary: ManuallyDrop::new(Box::new(id ^ MAGIC)) }
     }
     pub fn valid(&self) -> bool {
@@ -1127,8 +1143,19 @@ impl Drop for Tok {
                     w.violation("C07", "corrupt_token", format!("token {} canary {c:#x}", self.id));
                 }
                 w.obj_dropped(self.id, MAGIC);
+                // scripted: the destructor of this output panics (once, only while the crate is
+                // dropping it inside a poll, never during another unwind)
+                if w.tok_panics.get() == Some(self.id) && w.ctx.get() == Ctx::InPoll && !std::thread::panicking() {
+                    w.tok_panics.set(None);
+                    w.scripted_panic.set(true);
+                    w.panic_mode.set(true);
+                    panic!("scripted panic in the destructor of output {}", self.id);
+                }
             }
         } else if let Some(w) = try_w() {
+            if self.magic == 0xDEAD_70C3 {
+                w.violation("C06", "double_drop", format!("output token {} dropped a second time", self.id));
+            }
             w.obj_dropped(self.id, self.magic);
         }
     }
